@@ -62,7 +62,7 @@ fn main() {
             let block_seed = rng.next();
             let mut crng = Rng(block_seed);
             let n = crng.range(tlo, thi) as usize;
-            let opts = GenOpts { invalid: crng.chance(1, 2), destroy: crng.chance(1, 2), create: crng.chance(1, 2), beneficiary_roles: true, shared_callers: crng.chance(1, 2), chain: false, cb: false, multi: false, empty_ben: crng.chance(1, 3), auth: false };
+            let opts = GenOpts { invalid: crng.chance(1, 2), destroy: crng.chance(1, 2), create: crng.chance(1, 2), beneficiary_roles: true, shared_callers: crng.chance(1, 2), chain: false, cb: false, multi: false, empty_ben: crng.chance(1, 3), auth: false, maxn: false };
             let (world, block) = gen_block(&mut crng, n, opts);
             let mut orc = oracle(&world.db, &block);
             // half of the blocks run on a database with a persistent fault on a key in-order
@@ -137,6 +137,7 @@ fn main() {
             multi: optsv.contains("multi"),
             empty_ben: optsv.contains("emptyben"),
             auth: optsv.contains("auth"),
+            maxn: optsv.contains("maxn"),
         };
         let (mut world, block) = gen_block(&mut crng, n, opts);
         world.db.points = dbpoints && !free;
